@@ -267,6 +267,30 @@ func (c *Comparer) field(v reflect.Value, n *Node, fi int, f Field, path string)
 		if fv.Bool() != b {
 			c.add(fp, "value", "%v, want %v", fv.Bool(), b)
 		}
+	case FInt, FInt8, FInts:
+		var want []int64
+		for _, e := range evs {
+			vs, _ := NumericValues(f.Kind, e.Vals)
+			if f.Kind == FInts {
+				want = append(want, vs...)
+			} else if len(vs) > 0 {
+				want = vs
+			}
+		}
+		var got []int64
+		if f.Kind == FInts {
+			for i := 0; i < fv.Len(); i++ {
+				got = append(got, fv.Index(i).Int())
+			}
+		} else {
+			if len(want) == 0 {
+				want = []int64{0}
+			}
+			got = []int64{fv.Int()}
+		}
+		if fmt.Sprint(got) != fmt.Sprint(want) {
+			c.add(fp, "value", "%v, want %v", got, want)
+		}
 	case FTok:
 		got := fv.Interface().(lexer.Token)
 		var want lexer.Token
@@ -390,6 +414,35 @@ func (c *Comparer) Leaks(v reflect.Value, n *Node, uni int, path string) {
 			}
 			if fv.Bool() && !b {
 				c.add(fp, "leak", "true although no accepted capture carried a value")
+			}
+		case FInt, FInt8, FInts:
+			var allowed []int64
+			for _, e := range evs {
+				vs, _ := NumericValues(f.Kind, e.Vals)
+				allowed = append(allowed, vs...)
+			}
+			var got []int64
+			if f.Kind == FInts {
+				for i := 0; i < fv.Len(); i++ {
+					got = append(got, fv.Index(i).Int())
+				}
+			} else if fv.Int() != 0 {
+				got = []int64{fv.Int()}
+			}
+			j := 0
+			for _, g := range got {
+				for j < len(allowed) && allowed[j] != g {
+					j++
+				}
+				if j == len(allowed) {
+					c.add(fp, "leak", "%v holds a number that no accepted capture produced (%v)", got, allowed)
+					break
+				}
+				if f.Kind == FInts {
+					j++
+				} else {
+					j = 0
+				}
 			}
 		case FTok:
 			got := fv.Interface().(lexer.Token)
@@ -539,7 +592,7 @@ func HoldsElidedToken(g *Grammar, v reflect.Value) bool {
 	case reflect.Struct:
 		if v.Type() == tTok {
 			t := v.Interface().(lexer.Token)
-			return g.IsElided(lexSyms[t.Type])
+			return g.IsElided(g.Prof().TypeName(t))
 		}
 		for i := 0; i < v.NumField(); i++ {
 			n := v.Type().Field(i).Name
@@ -577,7 +630,7 @@ func plain(v reflect.Value, mask bool) string {
 			if mask {
 				return "tok"
 			}
-			return fmt.Sprintf("tok(%s %q)", lexSyms[t.Type], t.Value)
+			return fmt.Sprintf("tok(%d %q)", t.Type, t.Value)
 		}
 		if v.Type() == tPos || v.Type() == tMyPos || v.Type() == tMixin {
 			return ""
